@@ -14,6 +14,9 @@ import os
 import sys
 
 sys.path.insert(0, os.getcwd())
+import signal
+signal.signal(signal.SIGALRM, lambda *a: (print(json.dumps({'what': 'battery watchdog: the code under test did not terminate within 400 s'})), sys.stdout.flush(), os._exit(2)))
+signal.alarm(400)
 from playback.tape_recorder import TapeRecorder
 from playback.tape_cassettes.in_memory.in_memory_tape_cassette import InMemoryTapeCassette
 from playback.studio.equalizer import Equalizer, EqualityStatus, ComparatorResult, CompareExecutionConfig
@@ -135,8 +138,29 @@ def alone(rid):
     return run([rid], r)[0]
 
 
+def reap():
+    """never leave (or wait for) a worker process of a broken tree: the battery must terminate whatever the code under test does"""
+    import multiprocessing as _mp
+    for p_ in _mp.active_children():
+        try:
+            p_.kill()
+        except Exception:      # noqa
+            pass
+
+
+def finish(code):
+    sys.stdout.flush(); reap(); os._exit(code)          # os._exit: multiprocessing's exit handler would join a worker that never stops
+
+
 def fail(d):
-    print(json.dumps(d)); sys.exit(1)
+    print(json.dumps(d)); finish(1)
+
+
+def close_quietly(g):
+    try:
+        g.close(); return None
+    except BaseException as ex_:      # noqa - reported by the caller
+        return repr(ex_)
 
 
 n = 0
@@ -185,6 +209,25 @@ for rate in (1, 5):
             if (a['status'], a['message'], a['expected'], a['actual']) != (b['status'], b['message'], b['expected'], b['actual']):
                 fail({'what': 'dedicated-process verdict differs from the in-process verdict of the recording alone', 'position': k, 'sequence': [SHAPE_OF[i] for i in ids],
                       'recycle_rate': rate, 'dedicated': a, 'alone_in_process': b})
+# C19: two runs (two categories, each with its own equalizer) in dedicated-process mode, consumed INTERLEAVED: every recording gets the verdict it
+# gets alone - one run's worker management (creation, recycling) leaves the other run's worker alone
+for rate in (1, 2, 5):
+    idsA = [IDS[0], IDS[1], IDS[0], IDS[4]]; idsB = [IDS[3], IDS[2], IDS[3], IDS[1]]; n += 1
+    CURRENT[:] = []
+    cfgA = CompareExecutionConfig(compare_in_dedicated_process=True, compare_process_recycle_rate=rate, compare_process_timeout=60)
+    cfgB = CompareExecutionConfig(compare_in_dedicated_process=True, compare_process_recycle_rate=rate, compare_process_timeout=60)
+    gA = make_equalizer(idsA, TapeRecorder(cassette), cfgA).run_comparison(); gB = make_equalizer(idsB, TapeRecorder(cassette), cfgB).run_comparison()
+    for k in range(4):
+        for which, g, ids in (('first', gA, idsA), ('second', gB, idsB)):
+            a = describe(next(g)); b = ref[ids[k]]
+            if (a['id'], a['status'], a['message'], a['expected'], a['actual']) != (b['id'], b['status'], b['message'], b['expected'], b['actual']):
+                for g_ in (gA, gB):
+                    close_quietly(g_)
+                fail({'what': 'two comparison runs consumed interleaved: a recording does not get the verdict it gets alone', 'run': which, 'position': k, 'recycle_rate': rate,
+                      'runs': [[SHAPE_OF[i] for i in idsA], [SHAPE_OF[i] for i in idsB]], 'interleaved': a, 'alone': b})
+    for g_ in (gA, gB):
+        close_quietly(g_)
+    reap()
 # C13: a run abandoned at ANY point (before the first comparison was requested, after one, after two) leaves no worker process behind
 import multiprocessing
 import time
@@ -196,17 +239,15 @@ for consumed in (0, 1, 2):
         gen = make_equalizer(ids, TapeRecorder(cassette), cfg).run_comparison()
         for _ in range(consumed):
             next(gen)
-        if how == 'close':
-            gen.close()
+        err_ = close_quietly(gen) if how == 'close' else None
         del gen
         t0 = time.time()
         while multiprocessing.active_children() and time.time() - t0 < 15:
             time.sleep(0.05)
         left = multiprocessing.active_children()
-        if left:
-            for p_ in left:
-                p_.terminate()
-            fail({'what': 'a comparison run abandoned by its consumer left its worker process running', 'comparisons_consumed_before_abandoning': consumed,
-                  'abandoned_by': 'generator.close()' if how == 'close' else 'dropping the last reference', 'workers_left': len(left)})
-print(json.dumps({'bound': '3 abandonment points x close / drop in dedicated-process mode + 5 recordings of 4 shapes x all sequences of length <= 3 x 6 behaviour scenarios in-process + 3 sequences x 2 recycle rates in dedicated-process mode', 'cases': n}))
-sys.exit(0)
+        if left or err_:
+            fail({'what': 'a comparison run abandoned by its consumer left its worker process running' if left else 'closing an abandoned comparison run raised',
+                  'comparisons_consumed_before_abandoning': consumed, 'abandoned_by': 'generator.close()' if how == 'close' else 'dropping the last reference',
+                  'workers_left': len(left), 'close_raised': err_})
+print(json.dumps({'bound': '2 interleaved runs x 3 recycle rates + 3 abandonment points x close / drop in dedicated-process mode + 5 recordings of 4 shapes x all sequences of length <= 3 x 6 behaviour scenarios in-process + 3 sequences x 2 recycle rates in dedicated-process mode', 'cases': n}))
+finish(0)
